@@ -277,12 +277,16 @@ def check_history(world, tree, runs, gt_snap, exp, label):
             V = kernel.Violation('C17', 'repeated-work', 'reprocessed-complete|tracked=%s|ids=%s' % (tracked_requested(plan), id_class(p, ids)),
                                  '%s run %d (%s): page %r had every requested output and was processed again' % (label, ri, role, p))
             break
-        # tree only grows; complete outputs are never altered
+        # the tree only grows; outputs of pages that were complete are never altered.  (A page that was NOT
+        # complete is processed again by design and may rewrite what it had - with a request that grew since
+        # the earlier run even with other content; for those pages the final comparison with the
+        # uninterrupted run decides.)
+        owner = {f: p for p in ids for fs in exp[p].values() for f in fs}
         for f, dg in before.items():
             if f not in after:
                 V = kernel.Violation('C17', 'lost-output', 'output-removed', '%s run %d: %s disappeared' % (label, ri, f))
                 break
-            if after[f] != dg and f != 'transcriptions.txt':
+            if after[f] != dg and f != 'transcriptions.txt' and owner.get(f, None) not in (set(ids) - complete_before):
                 V = kernel.Violation('C17', 'altered-output', 'output-altered|%s' % f.split('/')[0], '%s run %d: existing output %s was rewritten with different content' % (label, ri, f))
                 break
         if V:
